@@ -613,7 +613,10 @@ class DiscreteFourierTransformInverse(DiscreteFourierTransformBase):
             Result of the transform
         """
         if self.halfcomplex:
-            return np.fft.irfftn(x, axes=self.axes)
+            # Need to give the shape explicitly, otherwise odd sizes in the
+            # last transformed axis cannot be recovered
+            return np.fft.irfftn(x, s=np.take(self.range.shape, self.axes),
+                                 axes=self.axes)
         else:
             if self.sign == '+':
                 return np.fft.ifftn(x, axes=self.axes)
